@@ -555,10 +555,46 @@ let c16 (payload : string) : string =
   let started = String.concat "," (List.map (fun r -> string_of_int (int_of_nat r)) s.started) in
   String.concat " | " (List.rev !out) ^ Printf.sprintf " | conns=%s:started=%s:closes=%d" conns started (int_of_nat s.closes)
 
+
+(* ---------------- C08: writers sharing a connection ---------------- *)
+let c08 (payload : string) : string =
+  (* M;<t>;<hdr hex>;<path hex>;<meth hex>;<meta>;<payload prefix hex>~<n>~<payload suffix hex>  ...  S;<g|w|p><t>,...
+     every thread runs Get; Fill; Write; Put (the sites' own programs are checked in Wire/SharedGenProofs.v) *)
+  let toks = split_on ' ' payload in
+  let msgs : (int, message) Hashtbl.t = Hashtbl.create 16 in
+  let sched = ref [] in
+  List.iter (fun t ->
+    match String.split_on_char ';' t with
+    | ["M"; id; h; sp; sm; meta; pl] ->
+      let pl = (match String.split_on_char '~' pl with
+        | [a; n; b] -> bytes_of_hex a @ List.init (int_of_string n) (fun _ -> n_of_int 0x78) @ bytes_of_hex b
+        | _ -> bytes_of_hex pl) in
+      Hashtbl.replace msgs (int_of_string id)
+        { m_hdr = bytes_of_hex h; m_path = bytes_of_hex sp; m_meth = bytes_of_hex sm; m_meta = parse_meta meta; m_payload = pl }
+    | ["S"; ops] ->
+      List.iter (fun o ->
+        let t = nat_of_int (int_of_string (String.sub o 1 (String.length o - 1))) in
+        match o.[0] with
+        | 'g' -> sched := (t, O) :: (t, O) :: !sched
+        | _ -> sched := (t, O) :: !sched) (split_on ',' ops)
+    | _ -> failwith ("token " ^ t)) toks;
+  let env = (fun _ -> None) in
+  let empty = { m_hdr = bytes_of_hex "080000000000000000000000"; m_path = []; m_meth = []; m_meta = []; m_payload = [] } in
+  let msg (t : nat) = (match Hashtbl.find_opt msgs (int_of_nat t) with Some m -> m | None -> empty) in
+  let s = wrun env msg (fun _ -> [OGet; OFill; OWrite; OPut]) (List.rev !sched) in
+  let frames = String.concat "," (List.map (fun t ->
+      let m = msg t in
+      let l = int_of_n (encode_len env m) in
+      let fb = raw_of_bytes (encode_pooled env (List.init l (fun _ -> N0)) m) in
+      Printf.sprintf "%d:%s" (int_of_nat t) (Digest.to_hex (Digest.string fb))) s.wlog) in
+  let st = raw_of_bytes s.stream in
+  Printf.sprintf "frames=%s stream=%d:%s" frames (String.length st) (Digest.to_hex (Digest.string st))
+
 let () =
   let prop = Sys.argv.(1) in
   let f = match prop with
     | "C12" -> c12
+    | "C08" -> c08
     | "C16" -> c16
     | "C15" | "C19" -> c15
     | "C20" -> c20
